@@ -281,6 +281,15 @@ func (g *gen) behC06() M {
 			if run.S(q, "parse") == "blank" {
 				q = M{"id": q["id"], "parse": "ok", "stmts": []any{}}
 			}
+			if sts := run.L(q, "stmts"); len(sts) == 1 && g.chance(0.1) {
+				// a statement function that panics when executed (only reachable through Execute, where the
+				// library recovers)
+				st := run.AsM(sts[0])
+				prog := run.L(st, "prog")
+				if len(prog) > 0 {
+					st["prog"] = append(append([]any{}, prog[:len(prog)-1]...), M{"op": "panic"})
+				}
+			}
 			m = M{"t": "P", "name": g.name(), "q": q, "noids": 0}
 		case 3, 4:
 			m = M{"t": "B", "portal": g.name(), "stmt": g.name(), "pfmt": []any{}, "params": []any{}, "rfmt": []any{}}
